@@ -150,7 +150,7 @@ PROPS["C06"] = {
              "The other tenants are populated, a fixed set of their observables is recorded (full listing, 5 query shapes over REST and gRPC, 5 checks, 5 expands, hash of their raw rows), then 4-25 API operations run in tenant A "
              "(the C04 mix incl. delete-by-empty-query over gRPC and deletes aimed at relationships that exist only in another tenant). After EVERY operation: every recorded observable of every other tenant is unchanged and equals its model; "
              "tenant A's listing and checks equal A's own model; a relationship stored only in another tenant is not allowed in A. non-trivial = the other tenants hold data; distinct = hash of the history."),
-    "probes": ["ops_in_A", "probe_delete_in_A", "probe_foreign_check", "probe_delete_by_value_in_A", "probe_delete_over_100_in_A", "probe_delete_by_query_in_A"],
+    "probes": ["ops_in_A", "probe_delete_in_A", "probe_foreign_check", "probe_delete_by_value_in_A", "probe_delete_over_100_in_A", "probe_block_of_500_plus", "probe_delete_by_query_in_A"],
     "real": REAL_S + ["ketoctx.Contextualizer / HTTP middleware / gRPC interceptor options of the real registry (driver.NewDefaultRegistry) carry the tenant"], "stub": STUB_S,
     "fault_kinds": {},
     "assumptions": ["tenants are distinguished by the network id returned by the Contextualizer, as in a multi-tenant embedding of keto"],
@@ -223,7 +223,7 @@ PROPS["C05"] = {
              "mode isolation / isolation-wal (tier T): a writer toggling transact(insert X, delete Y) is parked before each of its statements while readers (REST list, gRPC list with paging, two checks) run to completion; the recorded history (event sequence numbers) is checked with porcupine against a two-state model. "
              "mode stmt-interleave (tier T, generalised): the toggling transaction (real PATCH handler) and one or two single-page listings run inside one scheduler bubble; every SQL statement and every acquisition of pop's SQLite mutexes is a scheduling point, so the whole transaction can also fall between two statements of one reader; a listing that answers shows the state before or after, and the stored state afterwards matches the acknowledgement. "
              "non-trivial = request touches >= 2 tuples (isolation: at least one read overlapped the transaction); distinct = hash of request shape and pre-state."),
-    "probes": ["probe_multi_chunk_insert", "probe_multi_chunk_delete", "probe_direct_manager_call", "failed_atomically", "invalid_positions", "invalid_positions_manager", "fault_crash", "fault_crash_after_ack", "reads_during_transaction", "porcupine_ok", "probe_reader_and_writer_interleaved"],
+    "probes": ["probe_multi_chunk_insert", "probe_multi_chunk_delete", "probe_direct_manager_call", "failed_atomically", "invalid_positions", "invalid_positions_manager", "fault_crash", "fault_crash_after_ack", "reads_during_transaction", "porcupine_ok", "probe_reader_and_writer_interleaved", "probe_single_page_over_1000_rows"],
     "real": REAL_S + ["SQLite file locking, rollback journal and WAL recovery (file-backed database in crash / isolation modes)", "porcupine v1.3.0 linearizability checker (isolation modes)"], "stub": STUB_S + ["crash = death of every connection + copy of the database files at that instant; power loss / torn pages / fsync lies are below any keto code and not modelled"],
     "fault_kinds": {"io": "statement returns an I/O error", "busy": "database is locked (pop retries)", "badconn": "driver.ErrBadConn", "full": "SQLITE_FULL", "ctx": "context.Canceled", "crash": "all connections die at statement k, files snapshotted"},
     "assumptions": ["fail-stop faults only: a 'commit succeeded but the ack was lost' fault without a crash is not injected (no implementation can satisfy 'unchanged when an error was returned' under it)", "isolation observed is SQLite's; keto's contribution (one transaction, every statement on the ctx connection) is what the monitor checks"],
